@@ -5,3 +5,4 @@ open PyPred
 #print axioms Gen.genFalse_sound
 #print axioms Gen.C10_and_left_raises_stream
 #print axioms Gen.C10_and_left_raises
+#print axioms Gen.C10_judged_by_C08_evaluator
